@@ -469,6 +469,15 @@ func mayAuth(c *Conn) bool {
 //@   props C04:post,pre@call
 //@   ensures err == nil && !tagHandlerFailed() ==> __ghost("tagged") == old(__ghost("tagged"))+1
 //@   ensures err == nil ==> __ghost("tagged") >= old(__ghost("tagged"))+1 && __ghost("tagged") <= old(__ghost("tagged"))+2
+//@   props C04:callsite
+//@   callsite[C04] Conn.writeStatusResp(cc *Conn, tag string, resp *imap.StatusResponse) requires !strings.Contains(tag, "+")
+//@   callsite[C04] Conn.handleLogin(cc *Conn, tag string, d *imapwire.Decoder) requires !strings.Contains(tag, "+")
+//@   callsite[C04] Conn.handleAuthenticate(cc *Conn, tag string, d *imapwire.Decoder) requires !strings.Contains(tag, "+")
+//@   callsite[C04] Conn.handleStartTLS(cc *Conn, tag string, d *imapwire.Decoder) requires !strings.Contains(tag, "+")
+//@   callsite[C04] Conn.handleAppend(cc *Conn, tag string, d *imapwire.Decoder) requires !strings.Contains(tag, "+")
+//@   callsite[C04] Conn.handleSelect(cc *Conn, tag string, d *imapwire.Decoder, ro bool) requires !strings.Contains(tag, "+")
+//@   callsite[C04] Conn.handleCopy(cc *Conn, tag string, d *imapwire.Decoder, k NumKind) requires !strings.Contains(tag, "+")
+//@   callsite[C04] Conn.handleSearch(cc *Conn, tag string, d *imapwire.Decoder, k NumKind) requires !strings.Contains(tag, "+")
 //@   props C08:callsite
 //@   callsite Conn.poll(cc *Conn, cmd string) requires (__called("Conn.handleFetch") ==> cmd == "FETCH" || cmd == "UID FETCH") && (__called("Conn.handleStore") ==> cmd == "STORE" || cmd == "UID STORE") && (__called("Conn.handleSearch") ==> cmd == "SEARCH" || cmd == "UID SEARCH")
 //@   props C05:post
